@@ -63,6 +63,12 @@ static void run(Src &s) {
   std::vector<Consulted> cons = consulted_files(t, pa);
   materialise(t, pa, g_scr.dir);
   bool use_cb = !s.chance(25);
+  // drop-ins-only mode looks in <project>.d whatever CONFIG_DIRS list the options object carries
+  if (pa.dropins_only() && pa.confdirs_mode == 0 && s.chance(40)) {
+    pa.obj_postfixes = {"/conf.d", ".x.d"};
+    pa.confdirs_mode = 1;
+    g_case.tag("config_dirs_item_in_dropins_only_mode");
+  }
   // the caller's options object may have been through an earlier read that failed (nothing of it may stick)
   pa.warmup_failed_read = s.chance(12);
   if (pa.warmup_failed_read) g_case.tag("object_reused_after_failed_read");
